@@ -159,6 +159,10 @@ open KV in
 -- a non-transient error raised by an instrumented statement after a write: raised to the caller, nothing written
 example : run KV.step [(1, 5)] [(true, .update 1 1), (true, .upsert 2 3)] [some (1, ⟨.operational, 1054⟩)]
     = ⟨[(1, 5)], some ⟨.operational, 1054⟩, 1⟩ := by decide
+open KV in
+-- a 5-row execute_many is one statement of one transaction: a deadlock at its COMMIT retries the whole call, every row applied once
+example : run KV.step [(1, 1)] [(false, .nop), (false, .nop), (true, .upsertMany 1 2 5)] [some (3, ⟨.operational, 1213⟩)]
+    = ⟨[(1, 7), (2, 4)], none, 2⟩ := by decide
 example : pymysqlClass 1205 = .operational ∧ pymysqlClass 1213 = .operational ∧ pymysqlClass 2013 = .operational := by decide
 
 end HailVerif.C27
